@@ -3,9 +3,9 @@ Signed stage (DO=1, NSEC): what a denial proof has to contain (RFC 4035 §3.1.3,
 owner / next-name interval in canonical order), and the decidable predicates delimiting where
 the modelled code (`Model/AuthZoneSigned.lean`) attaches less than that.
 
-* `nxNoWildcardDenial`      NXDOMAIN whose NSECs do not cover `*.<closest encloser>`:
-                            `nsec_records` looks for the NSEC of `qname.base_name()` (the parent),
-                            not of the wildcard at the closest encloser;
+* (`nxNoWildcardDenial` — NXDOMAIN whose NSECs do not cover `*.<closest encloser>` — was repaired
+  in /repo f7c9c53; the predicate stays as a definition for the regression theorem
+  `fixed_nsec_no_wildcard_denial`, it is no class any more)
 * `soaQueryWildcardNoProof` QTYPE SOA answered through a wildcard: the "SOA queries also get the
                             NS" branch replaces the branch that attaches the NSEC;
 * `wildcardExpansionNotProven`  a wildcard-expanded RRset in the answer (possibly behind a CNAME)
